@@ -32,9 +32,13 @@ def b64(x):
 
 def main():
     cases = json.load(open(sys.argv[1], encoding="utf-8"))
-    out = []
+    order = list(range(len(cases)))
+    if os.environ.get("H_ORDER") == "reversed":       # another history inside the process
+        order.reverse()
+    out = [None] * len(cases)
     tmp = tempfile.mkdtemp(dir=os.path.dirname(sys.argv[2]))
-    for ci, m in enumerate(cases):
+    for ci in order:
+        m = cases[ci]
         res = {}
         for name, W, ext, R in writers():
             fm = spec.build_fm(m)
@@ -66,7 +70,7 @@ def main():
                 entry["error"] = type(e).__name__
             entry["model_unchanged"] = sx.dumps(spec.fm_sx(spec.dump_fm(fm))) == before
             res[name] = entry
-        out.append(res)
+        out[ci] = res
     json.dump(out, open(sys.argv[2], "w"))
 
 
